@@ -622,6 +622,10 @@ pub fn resolve(raw: &RawDoc) -> SDoc {
                     if raw.opts.hostile_names && (seed as usize + s as usize) % 2 == 0 {
                         // keyword path segments; the file index keeps module paths of different files apart
                         format!("{}{}", RUST_KEYWORDS[(seed as usize + s as usize * 7 + i) % RUST_KEYWORDS.len()], if s == 0 { i.to_string() } else { String::new() })
+                    } else if s > 0 && s + 1 == segs.min(3) && seed % 3 == 0 {
+                        // a last segment shared by the files that take this branch: module paths
+                        // that differ in their first segment and agree in a later one
+                        "model".to_string()
                     } else {
                         format!("{}{}", NS[(seed as usize + s as usize * 3 + i) % NS.len()], i)
                     }
@@ -676,7 +680,18 @@ pub fn resolve(raw: &RawDoc) -> SDoc {
                 let allow_back = !is_args && (is_union || req != Req::Required);
                 let ty = cx.ty(&f.ty, pos, file, allow_back, false, is_union);
                 let default = if cx.raw.opts.defaults && !is_union && !is_args { f.default_seed.and_then(|s| cx.lit_for(files, &ty, s, 0)) } else { None };
-                let name = if cx.raw.opts.hostile_names { hostile(mixh(name_seed, (pos as u64) << 20 | (i as u64) << 8 | f.id_seed as u64), &mut used_names, false) } else { format!("f{}{}", SYL[(i * 5 + pos) % SYL.len()].to_lowercase(), i) };
+                let name = if cx.raw.opts.hostile_names { hostile(mixh(name_seed, (pos as u64) << 20 | (i as u64) << 8 | f.id_seed as u64), &mut used_names, false) } else { {
+                    // field names never matter to the harness (values are observed on the wire), so
+                    // they vary in case style: the Rust name differs from the IDL name for most
+                    let syl = SYL[(i * 5 + pos) % SYL.len()].to_lowercase();
+                    let cap = format!("{}{}", syl[..1].to_uppercase(), &syl[1..]);
+                    match (i + pos) % 4 {
+                        0 => format!("f{}{}Val", cap, i),
+                        1 => format!("f_{}_{}", syl, i),
+                        2 => format!("F{}{}", cap, i),
+                        _ => format!("f{}{}", syl, i),
+                    }
+                } };
                 let annots = if cx.raw.opts.annotations { field_annots(cx, &ty, f.id_seed, i) } else { vec![] };
                 let retyped = annots.iter().any(|(k, v)| k == "pilota.rust_wrapper_arc" || (k == "pilota.rust_type" && v == "vec"));
                 let default = if retyped && !cx.raw.opts.annotated_defaults { None } else { default };
